@@ -117,6 +117,16 @@ func retry(c *core.Ctx, fn, get *core.Fn) (retryLoop token.Pos) {
 			return false
 		}():
 			c.Failf("R3.retry", name+"/decrements", call.Pos(), "the retry passes `%s`, the depth never reaches 0: with no node reporting role:master the tool retries forever (hangs) instead of failing with an error", c.Src(arg))
+		case !tt.MentionsResolved(info, body, arg, depth, 4):
+			// the depth handed on does not depend on the depth received: every further round starts
+			// with the same value K. With K > 0 no round ever meets the depth == 0 exit
+			if k, okK, why := fixedDepth(c, fn, body, call.(*ast.CallExpr), arg); !okK {
+				c.Undecidedf("R3.retry", name+"/decrements", call.Pos(), "retry argument `%s` does not mention the received depth and its value is not known (%s)", c.Src(arg), why)
+			} else if k > 0 {
+				c.Failf("R3.retry", name+"/decrements", call.Pos(), "the retry passes `%s` (= %d), a value that does not depend on the depth it received: the argument must strictly decrease the received depth, here every further round starts with depth %d again and the depth never reaches 0: with no node reporting role:master the tool retries forever (hangs) instead of failing with an error", c.Src(arg), k, k)
+			} else {
+				c.Undecidedf("R3.retry", name+"/decrements", call.Pos(), "retry argument `%s` is the fixed value %d: not a counted retry", c.Src(arg), k)
+			}
 		default:
 			c.Undecidedf("R3.retry", name+"/decrements", call.Pos(), "retry argument `%s` not recognised", c.Src(arg))
 		}
@@ -203,6 +213,176 @@ func retry(c *core.Ctx, fn, get *core.Fn) (retryLoop token.Pos) {
 		}
 	}
 	return retryLoop
+}
+
+// fixedDepth evaluates a retry argument that does not mention the received depth: integer
+// constants, + - *, conversions, single-definition locals, and fields of the receiver the retry is
+// called on whose value is the same constant in every composite literal of the supervisor type and
+// which are assigned nowhere else in the package.
+func fixedDepth(c *core.Ctx, fn *core.Fn, body *ast.BlockStmt, call *ast.CallExpr, arg ast.Expr) (int64, bool, string) {
+	info := fn.Pkg.TypesInfo
+	var recv types.Object
+	if fn.Decl.Recv != nil && len(fn.Decl.Recv.List) == 1 && len(fn.Decl.Recv.List[0].Names) == 1 {
+		recv = info.Defs[fn.Decl.Recv.List[0].Names[0]]
+	}
+	// the retry runs on the same supervisor
+	if sel, ok := ast.Unparen(call.Fun).(*ast.SelectorExpr); !ok || recv == nil || identObj(info, tt.Resolve(info, body, sel.X, 3)) != recv {
+		return 0, false, "the retry is not called on the receiver itself"
+	}
+	why := ""
+	var eval func(e ast.Expr, depth int) (int64, bool)
+	eval = func(e ast.Expr, depth int) (int64, bool) {
+		e = ast.Unparen(e)
+		if k, ok := core.IntConst(info, e); ok {
+			return k, true
+		}
+		if depth == 0 {
+			why = "expression too deep"
+			return 0, false
+		}
+		switch v := e.(type) {
+		case *ast.BinaryExpr:
+			a, okA := eval(v.X, depth-1)
+			b, okB := eval(v.Y, depth-1)
+			if !okA || !okB {
+				return 0, false
+			}
+			switch v.Op {
+			case token.ADD:
+				return a + b, true
+			case token.SUB:
+				return a - b, true
+			case token.MUL:
+				return a * b, true
+			}
+			why = "operator " + v.Op.String()
+			return 0, false
+		case *ast.UnaryExpr:
+			if a, ok := eval(v.X, depth-1); ok && (v.Op == token.SUB || v.Op == token.ADD) {
+				if v.Op == token.SUB {
+					return -a, true
+				}
+				return a, true
+			}
+			return 0, false
+		case *ast.CallExpr:
+			if tv, ok := info.Types[v.Fun]; ok && tv.IsType() && len(v.Args) == 1 {
+				if b, isBasic := tv.Type.Underlying().(*types.Basic); isBasic && b.Info()&types.IsInteger != 0 {
+					return eval(v.Args[0], depth-1)
+				}
+			}
+			why = "a call"
+			return 0, false
+		case *ast.Ident:
+			if d, ok := tt.SingleDef(info, body, v); ok && d.Rhs != nil && d.Index == -1 && d.Range == nil {
+				return eval(d.Rhs, depth-1)
+			}
+			why = "`" + v.Name + "` is not a single-definition local"
+			return 0, false
+		case *ast.SelectorExpr:
+			fld := core.FieldOf(info, v)
+			if fld == nil || identObj(info, tt.Resolve(info, body, v.X, 3)) != recv {
+				why = "`" + c.Src(v) + "` is not a field of the receiver"
+				return 0, false
+			}
+			k, ok, w := fieldConst(c, fld)
+			if !ok {
+				why = w
+			}
+			return k, ok
+		}
+		why = "`" + c.Src(e) + "`"
+		return 0, false
+	}
+	k, ok := eval(arg, 6)
+	return k, ok, why
+}
+
+// fieldConst: the integer field fld of the supervisor has the same constant value in every
+// composite literal of its struct (0 when the literal omits it) and is written nowhere else in
+// the non-test files of the package.
+func fieldConst(c *core.Ctx, fld *types.Var) (int64, bool, string) {
+	pk := c.Pkg(pkgSup)
+	if pk == nil || fld.Pkg() != pk.Types {
+		return 0, false, "field `" + fld.Name() + "` is not declared in the supervisor's package"
+	}
+	info := pk.TypesInfo
+	var vals []int64
+	bad := ""
+	for _, f := range pk.Syntax {
+		if core.IsTestFile(c.Fset, f) {
+			continue
+		}
+		ast.Inspect(f, func(nd ast.Node) bool {
+			switch v := nd.(type) {
+			case *ast.CompositeLit:
+				lt := info.TypeOf(v)
+				if lt == nil {
+					return true
+				}
+				st, ok := lt.Underlying().(*types.Struct)
+				if !ok {
+					return true
+				}
+				idx := -1
+				for i := 0; i < st.NumFields(); i++ {
+					if st.Field(i) == fld {
+						idx = i
+					}
+				}
+				if idx < 0 {
+					return true
+				}
+				val, set := int64(0), false
+				for i, el := range v.Elts {
+					var e ast.Expr
+					if kv, isKV := el.(*ast.KeyValueExpr); isKV {
+						if k, isId := kv.Key.(*ast.Ident); isId && info.Uses[k] == types.Object(fld) {
+							e = kv.Value
+						}
+					} else if i == idx {
+						e = el
+					}
+					if e != nil {
+						k, isConst := core.IntConst(info, e)
+						if !isConst {
+							bad = "field `" + fld.Name() + "` is initialised with the non-constant `" + c.Src(e) + "`"
+						}
+						val, set = k, true
+					}
+				}
+				_ = set
+				vals = append(vals, val)
+			case *ast.AssignStmt:
+				for _, l := range v.Lhs {
+					if core.FieldOf(info, l) == fld {
+						bad = "field `" + fld.Name() + "` is assigned (`" + c.Src(v) + "`)"
+					}
+				}
+			case *ast.IncDecStmt:
+				if core.FieldOf(info, v.X) == fld {
+					bad = "field `" + fld.Name() + "` is modified (`" + c.Src(v) + "`)"
+				}
+			case *ast.UnaryExpr:
+				if v.Op == token.AND && core.FieldOf(info, v.X) == fld {
+					bad = "the address of field `" + fld.Name() + "` is taken"
+				}
+			}
+			return true
+		})
+	}
+	if bad != "" {
+		return 0, false, bad
+	}
+	if len(vals) == 0 {
+		return 0, false, "no composite literal initialises field `" + fld.Name() + "`"
+	}
+	for _, v := range vals[1:] {
+		if v != vals[0] {
+			return 0, false, "field `" + fld.Name() + "` has different initial values"
+		}
+	}
+	return vals[0], true, ""
 }
 
 type loopRetry struct {
